@@ -278,6 +278,7 @@ pub struct Mon {
     pub nontrivial_evals: u64,
     distinct: HashSet<u64>,
     distinct_capped: bool,
+    bulk_distinct: u64,
     by_op: BTreeMap<String, OpStat>,
     pending: OpStat,
     by_width: BTreeMap<usize, u64>,
@@ -383,6 +384,7 @@ impl Mon {
             nontrivial_evals: 0,
             distinct: HashSet::new(),
             distinct_capped: false,
+            bulk_distinct: 0,
             by_op: BTreeMap::new(),
             pending: OpStat::default(),
             by_width: BTreeMap::new(),
@@ -449,6 +451,15 @@ impl Mon {
 
     pub fn op_enabled(&self, op: &str) -> bool {
         self.cfg.ops.as_ref().map_or(true, |w| w.iter().any(|o| o == op))
+    }
+
+    /// Account for cases executed by a bulk sweep that bypasses `case()` (every
+    /// swept case is distinct by construction; `nontrivial` of them count).
+    pub fn bump(&mut self, evaluations: u64, nontrivial: u64) {
+        self.evaluations += evaluations;
+        self.generated += evaluations;
+        self.nontrivial_evals += nontrivial;
+        self.bulk_distinct += nontrivial;
     }
 
     pub fn mark_exhaustive(&mut self, what: impl Into<String>) {
@@ -800,7 +811,7 @@ impl Mon {
             "generated": self.generated,
             "evaluations": self.evaluations,
             "nontrivial_evaluations": self.nontrivial_evals,
-            "distinct_nontrivial": self.distinct.len(),
+            "distinct_nontrivial": self.distinct.len() as u64 + self.bulk_distinct,
             "distinct_capped": self.distinct_capped,
             "panics_expected": self.panics_expected,
             "violation_count": self.violation_count,
